@@ -150,8 +150,9 @@ def check_lim(eng, run):
     run.ob("C02.lim", f"{fn.short}:skip-to-separator-prefix", ok_loop)
     # fast path removes exactly seplen; the remainder starts at `consumed`
     src = ast.unparse(fn.node)
+    seplens = {k for k, vs in assignments(fn).items() for v in vs if isinstance(v, ast.Call) and getattr(v.func, "id", "") == "len" and v.args and dotted(v.args[0]) == "separator"}
     fast = any(isinstance(n, ast.If) and isinstance(n.test, ast.Compare) and "separator" in ast.unparse(n.test) and any(isinstance(s, ast.Assign) and isinstance(s.value, ast.Subscript) and isinstance(s.value.slice, ast.Slice)
-                                                                                                                   and dotted(s.value.slice.lower) == "seplen" for s in n.body) for n in own_nodes(fn.node))
+                                                                                                                   and dotted(s.value.slice.lower) in seplens for s in n.body) for n in own_nodes(fn.node))
     start = any(isinstance(n, ast.Assign) and isinstance(n.value, ast.Subscript) and isinstance(n.value.slice, ast.Slice) and dotted(n.value.slice.lower) == "consumed" for n in own_nodes(fn.node))
     if not (fast and start):
         run.finding("C02.lim", fn, fn.node, "LimitOverrunError no longer computes its remainder as buffer[consumed:] minus exactly one leading separator")
